@@ -1660,6 +1660,20 @@ class Interp(object):
 
     def apply(self, fv, args, kwargs, p, node):
         """perform a call; returns [(value, path)]"""
+        # f(*xs) with xs a sequence whose items are all known is f(x0, x1, ...)
+        if any(isinstance(a, tuple) and a and a[0] == "star" for a in args):
+            flat = []
+            for a in args:
+                if isinstance(a, tuple) and a and a[0] == "star":
+                    v = self.deref(a[1], p)
+                    if isinstance(v, tuple) and v and v[0] == "seq" and v[2] is None:
+                        flat.extend(v[1])
+                        continue
+                    if isinstance(v, tuple) and v and v[0] in ("tuple", "list"):
+                        flat.extend(v[1])
+                        continue
+                flat.append(a)
+            args = tuple(flat)
         # functools.partial / builtins with modelled semantics
         special = self.special_call(fv, args, kwargs, p, node)
         if special is not None:
